@@ -291,9 +291,46 @@ func (p *printer) subshell(x *ast.Subshell) {
 		p.newline()
 		p.indent()
 	} else {
+		if p.paren(x.List[0]) {
+			p.space()
+		}
 		p.command(x.List[0])
 	}
 	p.w.WriteByte(')')
+}
+
+// paren reports whether the output of c begins with a left parenthesis.
+func (p *printer) paren(c ast.Command) bool {
+	for {
+		switch x := c.(type) {
+		case ast.List:
+			if len(x) == 0 {
+				return false
+			}
+			c = x[0]
+		case *ast.AndOrList:
+			if x == nil || x.Pipeline == nil {
+				return false
+			}
+			c = x.Pipeline
+		case *ast.Pipeline:
+			if x == nil || x.Cmd == nil || !x.Bang.IsZero() {
+				return false
+			}
+			c = x.Cmd
+		case *ast.Cmd:
+			if x == nil {
+				return false
+			}
+			switch x.Expr.(type) {
+			case *ast.Subshell, *ast.ArithEval:
+				return true
+			}
+			return false
+		default:
+			return false
+		}
+	}
 }
 
 func (p *printer) group(x *ast.Group) {
@@ -655,6 +692,9 @@ func (p *printer) cmdSubst(w *ast.CmdSubst) {
 		p.newline()
 		p.indent()
 	} else {
+		if w.Dollar && p.paren(w.List[0]) {
+			p.space()
+		}
 		p.command(w.List[0])
 	}
 	p.stack = stack
